@@ -79,12 +79,14 @@ def run(modname, only=None, verbose=True):
     solve_all(allobs)
     if verbose:
         for r in reps:
-            n = len(r.obligations)
-            p = sum(o.status == "proved" for o in r.obligations)
+            n = sum(o.kind != "canary" for o in r.obligations)
+            p = sum(o.status == "proved" and o.kind != "canary" for o in r.obligations)
             print(f"{r.contract.qualname}: {p}/{n} proved, gen {r.gen_s:.1f}s", "UNDECIDED: " + r.undecided_reason if r.undecided_reason else "")
             for o in r.obligations:
-                if o.status != "proved":
+                if o.status != "proved" and o.kind != "canary":
                     print("   ", o.status, o.name, o.where, f"{o.time:.1f}s", " ".join(o.trail[-6:]))
+        slow = sorted(allobs, key=lambda o: -o.time)[:6]
+        print("slowest:", [(o.name.split('/')[-1], round(o.time, 1), o.backend) for o in slow])
         print(f"solve wall {time.time()-t0:.1f}s")
     return reps
 
